@@ -22,7 +22,8 @@ C14 — fn:path / node.path / etree_iter_paths identify each node uniquely.
              (none, the document's, hostile, renamed prefixes), and the paths of parent-less nodes.
  search    : exhaustive small trees (<= 5 nodes quick / <= 6 thorough, two element names, two PI targets one
              of which equals an element name, text, comment), lxml + ElementTree, document / element / fragment.
- tags      : only the known finding F14f (absolute node.path evaluated in a fragment context) is tagged, on the
+ tags      : the known findings F14f (absolute node.path evaluated in a fragment context) and F14l (node.path evaluated in
+             a rooted sub-tree context, op rooted-context-path only) are tagged; F14f on the
              field "nodes selected by node.path" of fragment cases, where the real selection is moreover compared
              with the Lean model of that behaviour (evalAbsInFragment).  Tags of repaired defects were dropped.
  translate : string literals of the anchored functions (ast) -> EPV/Gen/C14Literals.lean; EPV.C14.literals_as_modelled.
@@ -812,6 +813,479 @@ def parse_answer(ans: str):
     return recs(f['model']), recs(f['spec']), recs(f['etree']), recs(f['especs']), f.get('wf'), recs(f['evariants'])
 
 
+# --------------------------------------------------------------------------------------
+# phase 5: lazily built trees.  A fresh LazyElementNode(root) per walk; a node is reached by `for c in node:`
+# at every level (LazyElementNode.__iter__ builds the children on demand), then: the nodes iter_lazy() yields
+# on the tree as it stands with their paths, the reached node's path, what it selects in XPathContext(lazy),
+# the fully built tree.  Model: EPV/Model/LazyPath.lean (`reach`, `iterLazy`, `view`, `eager`), theorems
+# EPV.C14.lazy_* (Props/C14Lazy.lean).  The ElementTree tokens are written here, independently of elementpath.
+# --------------------------------------------------------------------------------------
+def etree_tokens(node, lib, namespaces, out):
+    tail = '1' if node.tail is not None else '0'
+    if callable(node.tag):
+        if node.tag.__name__ == 'Comment':
+            out.extend(['C', tail])
+        else:
+            target = node.target if hasattr(node, 'target') else (node.text or '').partition(' ')[0]
+            out.extend(['P', tk(target), tail])
+        return
+    ns, loc = clark(node.tag)
+    if lib == 'lxml':
+        nss = [('xml', XML_NS)] + [(p or '', u) for p, u in node.nsmap.items() if p != 'xml']
+    else:
+        nss = [('xml', XML_NS)] + [(p or '', u) for p, u in (namespaces or {}).items() if p != 'xml']
+    out.extend(['E', tk(ns), tk(loc), str(len(nss))])
+    for p, u in nss:
+        out.extend([tk(p), tk(u)])
+    out.append(str(len(node.attrib)))
+    for k in node.attrib:
+        ans, aloc = clark(k)
+        out.extend([tk(ans), tk(aloc)])
+    out.extend(['1' if node.text is not None else '0', tail, str(len(node))])
+    for ch in node:
+        etree_tokens(ch, lib, namespaces, out)
+
+
+def xdm_kids(elem):
+    """children of the XDM element for an ElementTree element: None = text node"""
+    out = [None] if elem.text is not None else []
+    for ch in elem:
+        out.append(ch)
+        if ch.tail is not None:
+            out.append(None)
+    return out
+
+
+def lazy_walks(xml, root):
+    """deterministic per input (the shrinker re-runs it): three walks, some ending out of range"""
+    import random
+    import zlib
+    rng = random.Random(zlib.crc32(xml.encode('utf-8')))
+    walks = []
+    for _ in range(3):
+        w, node = [], root
+        for _ in range(rng.randrange(0, 5)):
+            if node is None or callable(node.tag):
+                break
+            kids = xdm_kids(node)
+            if not kids or rng.random() < 0.08:
+                w.append(len(kids) + rng.randrange(0, 2))     # out of range: the walk stops at `node`
+                break
+            # prefer element children so that walks get deep, and late siblings so that positions are > 1
+            elems = [i for i, k in enumerate(kids) if k is not None and not callable(k.tag)]
+            i = rng.choice(elems) if elems and rng.random() < 0.6 else rng.randrange(len(kids))
+            w.append(i)
+            node = kids[i]
+        walks.append(w)
+    return walks
+
+
+def show_ip(ip):
+    return '.'.join(map(str, ip)) if ip else '-'
+
+
+def lazy_impl(case, root, walk, pns):
+    """(built text, target text, full kinds, eager kinds) of the real code; every exception canonicalised"""
+    from elementpath import LazyElementNode, XPathContext, get_node_tree
+    from elementpath.xpath30 import XPath30Parser
+    from elementpath.xpath31 import XPath31Parser
+    from elementpath.xpath_nodes import ElementNode, AttributeNode, NamespaceNode, TextNode, CommentNode
+
+    def letter(n):
+        return 'E' if isinstance(n, ElementNode) else 'T' if isinstance(n, TextNode) else \
+            'C' if isinstance(n, CommentNode) else 'P'
+
+    def ip_of(n, lazy):
+        ip = []
+        while n is not lazy:
+            if n is None or n.parent is None:
+                return ['X']
+            pos = [k for k, c in enumerate(n.parent.children) if c is n]
+            ip.append(pos[0] if pos else 'X')
+            n = n.parent
+        return ip[::-1]
+
+    lazy = LazyElementNode(root)
+    node = lazy
+    for i in walk:
+        if not isinstance(node, ElementNode):
+            break
+        kids = list(node)                   # LazyElementNode.__iter__
+        if i >= len(kids):
+            break
+        node = kids[i]
+    extra = 0
+    built = []
+    for n in lazy.iter_lazy():
+        if isinstance(n, (AttributeNode, NamespaceNode)):
+            extra += 1
+            continue
+        try:
+            pth = n.path
+        except Exception as e:
+            pth = err_text(e)
+        built.append(f'{show_ip(ip_of(n, lazy))};{letter(n)};{pth}')
+    tip = show_ip(ip_of(node, lazy))
+    try:
+        tpath = node.path
+        P = XPath31Parser if case['v31'] else XPath30Parser
+        got = list(P(namespaces=pns).parse(tpath).select(XPathContext(lazy)))
+        sel = ','.join('D' if x is not lazy and getattr(x, 'parent', 0) is None else show_ip(ip_of(x, lazy))
+                       for x in got) if got else 'NIL'
+    except Exception as e:
+        tpath, sel = locals().get('tpath', '?'), err_text(e)
+
+    def walk_all(n):
+        yield letter(n)
+        if isinstance(n, ElementNode):
+            for c in n:
+                yield from walk_all(c)
+    full = ''.join(walk_all(lazy))
+    try:
+        en = get_node_tree(root, namespaces=case['ns'], fragment=True)
+        eager = ''.join(letter(n) for n in en.iter_descendants())
+    except Exception as e:
+        eager = err_text(e)
+    return '|'.join(built), (tip, tpath, sel), full, eager, extra
+
+
+def lazy_compare(run: Run, prepared: list, count=True) -> None:
+    jobs = []
+    for case, line, kinds, parsed in prepared:
+        if case.get('libdoc') or case.get('doc') is None:
+            continue
+        if not (case['lib'] == 'lxml' or not case['ns']):
+            continue
+        xml, root = parsed[0], parsed[2]
+        if root is None or callable(root.tag):
+            continue
+        toks = []
+        etree_tokens(root, case['lib'], case['ns'], toks)
+        for w in lazy_walks(xml, root):
+            jobs.append((case, xml, root, w, f"lazy={','.join(toks)} walk={show_ip(w)}"))
+    if not jobs:
+        return
+    answers = run.driver('C14', [j[4] for j in jobs])
+    st = run.stats
+    for (case, xml, root, w, line), ans in zip(jobs, answers):
+        base = {'xml': xml, 'lib': case['lib'], 'form': case['form'], 'frag': case['frag'], 'ns': case['ns'],
+                'parser_ns': case['pns'], 'v31_first': case['v31'], 'doc': case['doc'],
+                'parser_options': case.get('popt', 0), 'lazy_walk': w}
+        f = dict(x.split('=', 1) for x in ans.split(' ') if '=' in x)
+        if ans.startswith('bad-') or not {'built', 'target', 'eager', 'full'} <= set(f):
+            run.disagree(Disagreement(base, 'driver:' + ans[:200], what='protocol'))
+            continue
+        pns = {(k or ''): v for k, v in root.nsmap.items()} if case['lib'] == 'lxml' else dict(case['ns'] or {})
+        if int(case['pns']) == 0:
+            pns = {}
+        try:
+            built, (tip, tpath, sel), full, eager, extra = lazy_impl(case, root, w, pns)
+        except Exception as e:
+            run.disagree(Disagreement(base, err_text(e), f['target'], spec=f['target'], what='lazy-walk',
+                                      site='LazyElementNode.__iter__ / iter_lazy'))
+            continue
+        mtip, mlazy, meager, mselv, msele = f['target'].split(';')
+        # spec: the path of the same node in the eagerly built tree, which selects exactly that node
+        d_impl, d_model, d_spec = f'{tip};{tpath};{sel}', f'{mtip};{mlazy};{mselv}', f'{mtip};{meager};{mtip}'
+        if not (d_impl == d_model == d_spec) or msele != mtip:
+            run.disagree(Disagreement(base, d_impl, d_model, spec=d_spec, what='lazy-walk-path',
+                                      site='LazyElementNode.__iter__ / ElementNode.path on a partially built tree'))
+        if built != f['built']:
+            run.disagree(Disagreement(base, built[:1500], f['built'][:1500], spec=f['built'][:1500], what='lazy-built-nodes',
+                                      site='ElementNode.iter_lazy on a partially built LazyElementNode tree'))
+        if not (full == f['full'] == f['eager']):
+            run.disagree(Disagreement(base, full, f['full'], spec=f['eager'], what='lazy-full-build',
+                                      site='LazyElementNode.__iter__ (all levels) vs. the eagerly built tree'))
+        if eager != f['eager']:
+            run.disagree(Disagreement(base, eager, f['eager'], spec=f['eager'], what='eager-tree-kinds',
+                                      site='tree_builders (eager) vs. model `eager`'))
+        if count:
+            nb, nf = built.count('|') + 1, len(full)
+            st.count('lazy-walk:cases')
+            st.count(f"lazy-walk:lib={case['lib']}")
+            st.count(f'lazy-walk:depth={len(tip.split(".")) if tip != "-" else 0}')
+            st.count('lazy-walk:target-kind=' + (dict(x.split(';')[:2] for x in built.split('|')).get(tip, '?')))
+            st.count('lazy-walk:' + ('walk-stopped-out-of-range-or-at-leaf' if show_ip(w) != tip else 'walk-completed'))
+            st.count('lazy-walk:' + ('tree-partially-built' if nb < nf else 'tree-fully-built'))
+            st.count('lazy-walk:built-nodes', nb)
+            if extra:
+                st.count('lazy-walk:attribute-or-namespace-nodes-yielded-by-iter_lazy', extra)
+            if tpath.rstrip(']').rsplit('[', 1)[-1] not in ('1', tpath):
+                st.count('lazy-walk:target-position>1')
+
+
+# --------------------------------------------------------------------------------------
+# phase 5, second item: a HISTORY of 2-6 walks on ONE LazyElementNode tree (each walk builds more, in place).
+# After every walk: the reached node's path and the number of nodes iter_lazy() yields; after the last one: every
+# built node with its path, each target's path re-read (must not have changed) and evaluated back.
+# Model: EPV/Model/LazyHist.lean (`reachMany`, `Good`), theorems EPV.C14.lazy_hist_* (Props/C14LazyHist.lean).
+# --------------------------------------------------------------------------------------
+def lazy_history(xml, root):
+    import random
+    import zlib
+    rng = random.Random(zlib.crc32(('history:' + xml).encode('utf-8')))
+    n = rng.randrange(2, 7)
+    walks = []
+    for _ in range(n):
+        w, node = [], root
+        if walks and rng.random() < 0.25:           # extend / repeat an earlier walk: re-enters built levels
+            w = list(rng.choice(walks))[:rng.randrange(0, 5)]
+            for i in w:
+                kids = xdm_kids(node) if node is not None and not callable(node.tag) else []
+                node = kids[i] if i < len(kids) else None
+                if node is None:
+                    break
+        for _ in range(rng.choice((0, 1, 1, 2, 2, 3, 4))):
+            if node is None or callable(node.tag):
+                break
+            kids = xdm_kids(node)
+            if not kids or rng.random() < 0.06:
+                w.append(len(kids) + rng.randrange(0, 2))
+                break
+            elems = [i for i, k in enumerate(kids) if k is not None and not callable(k.tag)]
+            i = rng.choice(elems) if elems and rng.random() < 0.6 else rng.randrange(len(kids))
+            w.append(i)
+            node = kids[i]
+        walks.append(w)
+    return walks
+
+
+def lazy_history_impl(case, root, walks, pns):
+    from elementpath import LazyElementNode, XPathContext
+    from elementpath.xpath30 import XPath30Parser
+    from elementpath.xpath31 import XPath31Parser
+    from elementpath.xpath_nodes import ElementNode, AttributeNode, NamespaceNode, TextNode, CommentNode
+
+    def letter(n):
+        return 'E' if isinstance(n, ElementNode) else 'T' if isinstance(n, TextNode) else \
+            'C' if isinstance(n, CommentNode) else 'P'
+
+    def ip_of(n, lazy):
+        ip = []
+        while n is not lazy:
+            if n is None or n.parent is None:
+                return ['X']
+            pos = [k for k, c in enumerate(n.parent.children) if c is n]
+            ip.append(pos[0] if pos else 'X')
+            n = n.parent
+        return ip[::-1]
+
+    def safe_path(n):
+        try:
+            return n.path
+        except Exception as e:
+            return err_text(e)
+
+    lazy = LazyElementNode(root)
+    reached, counts = [], []
+    for walk in walks:
+        node = lazy
+        for i in walk:
+            if not isinstance(node, ElementNode):
+                break
+            kids = list(node)                   # LazyElementNode.__iter__ on the SAME tree
+            if i >= len(kids):
+                break
+            node = kids[i]
+        reached.append((node, safe_path(node)))
+        counts.append(sum(1 for n in lazy.iter_lazy() if not isinstance(n, (AttributeNode, NamespaceNode))))
+    built = [f'{show_ip(ip_of(n, lazy))};{letter(n)};{safe_path(n)}' for n in lazy.iter_lazy()
+             if not isinstance(n, (AttributeNode, NamespaceNode))]
+    nbuilt = len(built)
+    P = XPath31Parser if case['v31'] else XPath30Parser
+    parser = P(namespaces=pns)
+    targets, changed = [], 0
+    for node, pth in reached:
+        again = safe_path(node)                 # re-read after all later walks
+        if again != pth:
+            changed += 1
+            pth = f'{pth}->{again}'
+        try:
+            got = list(parser.parse(again).select(XPathContext(lazy)))
+            sel = ','.join('D' if x is not lazy and getattr(x, 'parent', 0) is None else show_ip(ip_of(x, lazy))
+                           for x in got) if got else 'NIL'
+        except Exception as e:
+            sel = err_text(e)
+        targets.append((show_ip(ip_of(node, lazy)), pth, sel))
+
+    def walk_all(n):
+        yield letter(n)
+        if isinstance(n, ElementNode):
+            for c in n:
+                yield from walk_all(c)
+    full = ''.join(walk_all(lazy))
+    return '|'.join(built), targets, ','.join(map(str, counts)), full, nbuilt
+
+
+def lazy_history_compare(run: Run, prepared: list, count=True) -> None:
+    jobs = []
+    for case, line, kinds, parsed in prepared:
+        if case.get('libdoc') or case.get('doc') is None:
+            continue
+        if not (case['lib'] == 'lxml' or not case['ns']):
+            continue
+        xml, root = parsed[0], parsed[2]
+        if root is None or callable(root.tag):
+            continue
+        toks = []
+        etree_tokens(root, case['lib'], case['ns'], toks)
+        ws = lazy_history(xml, root)
+        jobs.append((case, xml, root, ws, f"lazy={','.join(toks)} walks={'/'.join(show_ip(w) for w in ws)}"))
+    if not jobs:
+        return
+    answers = run.driver('C14', [j[4] for j in jobs])
+    st = run.stats
+    for (case, xml, root, ws, line), ans in zip(jobs, answers):
+        base = {'xml': xml, 'lib': case['lib'], 'form': case['form'], 'frag': case['frag'], 'ns': case['ns'],
+                'parser_ns': case['pns'], 'v31_first': case['v31'], 'doc': case['doc'],
+                'parser_options': case.get('popt', 0), 'lazy_history': ws}
+        f = dict(x.split('=', 1) for x in ans.split(' ') if '=' in x)
+        if ans.startswith('bad-') or not {'built', 'targets', 'counts', 'good', 'eager', 'full'} <= set(f):
+            run.disagree(Disagreement(base, 'driver:' + ans[:200], what='protocol'))
+            continue
+        pns = {(k or ''): v for k, v in root.nsmap.items()} if case['lib'] == 'lxml' else dict(case['ns'] or {})
+        if int(case['pns']) == 0:
+            pns = {}
+        try:
+            built, targets, counts, full, nbuilt = lazy_history_impl(case, root, ws, pns)
+        except Exception as e:
+            run.disagree(Disagreement(base, err_text(e), f['targets'][:600], spec=f['targets'][:600], what='lazy-history',
+                                      site='LazyElementNode.__iter__ / iter_lazy'))
+            continue
+        mt = [x.split(';') for x in f['targets'].split('|')]
+        d_impl = '|'.join(';'.join(t) for t in targets)
+        d_model = '|'.join(f'{m[0]};{m[1]};{m[3]}' for m in mt)       # path right after the walk, selection in the final state
+        d_spec = '|'.join(f'{m[0]};{m[2]};{m[0]}' for m in mt)        # eager path, selects exactly the node
+        if not (d_impl == d_model == d_spec) or any(m[4] != m[0] for m in mt) or f['good'] != '1':
+            run.disagree(Disagreement(base, d_impl[:1500], d_model[:1500], spec=d_spec[:1500], what='lazy-history-paths',
+                                      site='LazyElementNode.__iter__ called repeatedly on one tree / ElementNode.path'))
+        if built != f['built'] or counts != f['counts']:
+            run.disagree(Disagreement(base, (counts + ' ' + built)[:1500], (f['counts'] + ' ' + f['built'])[:1500],
+                                      spec=(f['counts'] + ' ' + f['built'])[:1500], what='lazy-history-built-nodes',
+                                      site='ElementNode.iter_lazy after each walk of a history'))
+        if not (full == f['full'] == f['eager']):
+            run.disagree(Disagreement(base, full, f['full'], spec=f['eager'], what='lazy-history-full-build',
+                                      site='LazyElementNode.__iter__ (rest of the tree after a history)'))
+        if count:
+            st.count('lazy-history:cases')
+            st.count(f"lazy-history:lib={case['lib']}")
+            st.count(f'lazy-history:walks={len(ws)}')
+            st.count('lazy-history:walks-total', len(ws))
+            st.count('lazy-history:' + ('tree-partially-built' if nbuilt < len(full) else 'tree-fully-built'))
+            cs = counts.split(',')
+            st.count('lazy-history:walks-that-built-something', sum(1 for a, b in zip(['1'] + cs, cs) if a != b))
+            st.count('lazy-history:walks-entirely-inside-built-part', sum(1 for a, b in zip(['1'] + cs, cs) if a == b))
+            st.count('lazy-history:max-depth=%d' % max(0 if t[0] == '-' else len(t[0].split('.')) for t in targets))
+            st.count('lazy-history:targets-position>1',
+                     sum(1 for t in targets if t[1].rstrip(']').rsplit('[', 1)[-1] not in ('1', t[1])))
+            st.count('lazy-history:built-nodes', nbuilt)
+
+
+# --------------------------------------------------------------------------------------
+# phase 5: ROOTED SUB-TREES.  The node tree of the whole input; the dynamic context on an element node that has an
+# element parent (XPathContext(root=sub), `is_rooted_subtree()`); for every node of the sub-tree: node.path, fn:path,
+# and what each selects in that same context.  Model: EPV/Model/RootedPath.lean (`evalAbsRooted`, `evalRootFnRooted`,
+# `fnPathRooted`, trigger `rootedCtx`); fn:path at full strength (EPV.C14.rooted_fn_path_selects_self, fix-c14-6); node.path is
+# finding F14l (EPV.C14.rooted_abs_path_never_selects).
+# --------------------------------------------------------------------------------------
+def rooted_compare(run: Run, prepared: list, count=True) -> None:
+    import zlib
+    from elementpath import XPathContext, get_node_tree
+    from elementpath.xpath31 import XPath31Parser
+    from elementpath.xpath_nodes import DocumentNode, ElementNode
+    jobs = []
+    for case, line, kinds, parsed in prepared:
+        if case.get('libdoc') or case.get('doc') is None or case['frag'] is not None or not line.startswith('root='):
+            continue
+        xml, obj = parsed[0], parsed[1]
+        try:
+            tree = get_node_tree(obj, namespaces=case['ns'])
+            subs = [n for n in tree.iter() if isinstance(n, ElementNode) and isinstance(n.parent, ElementNode)]
+        except Exception as e:
+            run.disagree(Disagreement({'xml': xml, 'lib': case['lib']}, err_text(e), 'tree', spec='tree', what='rooted-context'))
+            continue
+        if not subs:
+            continue
+        h = zlib.crc32(xml.encode('utf-8'))
+        for sub in {id(x): x for x in (subs[h % len(subs)], subs[(h // 7) % len(subs)])}.values():
+            ip, n = [], sub
+            while n.parent is not None:
+                ip.append([k for k, c in enumerate(n.parent.children) if c is n][0])
+                n = n.parent
+            jobs.append((case, xml, tree, sub, ip[::-1], f'{line} rooted={show_ip(ip[::-1])}'))
+    if not jobs:
+        return
+    answers = run.driver('C14', [j[5] for j in jobs])
+    parser = XPath31Parser()
+    path_dot = parser.parse('path(.)')
+    st = run.stats
+    for (case, xml, tree, sub, pre, line), ans in zip(jobs, answers):
+        base = {'xml': xml, 'lib': case['lib'], 'form': case['form'], 'frag': case['frag'], 'ns': case['ns'],
+                'parser_ns': case['pns'], 'v31_first': case['v31'], 'doc': case['doc'],
+                'parser_options': case.get('popt', 0), 'rooted_context_at': pre}
+        f = dict(x.split('=', 1) for x in ans.split(' ') if '=' in x)
+        if ans.startswith('bad-') or not {'trigger', 'rooted'} <= set(f):
+            run.disagree(Disagreement(base, 'driver:' + ans[:200], what='protocol'))
+            continue
+        nodes = list(sub.iter())
+        idx = {id(n): k for k, n in enumerate(nodes)}
+        # the trigger, computed from the input: the context root has an element parent
+        trig = isinstance(sub.parent, ElementNode)
+        if (f['trigger'] == '1') != trig:
+            run.disagree(Disagreement(base, str(trig), f['trigger'], spec=f['trigger'], what='rooted-trigger'))
+            continue
+
+        def sel_of(text):
+            try:
+                got = list(parser.parse(text).select(XPathContext(root=sub)))
+            except Exception as e:
+                return err_text(e)
+            return ','.join('D' if isinstance(x, DocumentNode) else str(idx.get(id(x), '?')) for x in got) if got else '-'
+        mrecs = f['rooted'].split('|')
+        if len(mrecs) != len(nodes):
+            run.disagree(Disagreement(base, str(len(nodes)), str(len(mrecs)), spec=str(len(mrecs)), what='rooted-tree-shape'))
+            continue
+        tagged = False
+        for k, (n, mrec) in enumerate(zip(nodes, mrecs)):
+            try:
+                p = n.path
+                fn = path_dot.evaluate(XPathContext(root=sub, item=n))
+                fn = fn if isinstance(fn, str) else repr(fn)
+                impl = f'{p};{fn};{sel_of(p)};{sel_of(fn)}'
+            except Exception as e:
+                impl = err_text(e)
+            m = mrec.split(';')
+            i = impl.split(';') if impl.count(';') == 3 else [impl, impl, impl, impl]
+            # fn:path (after fix-c14-6): full strength - the text, and it selects exactly the node
+            fn_impl, fn_model, fn_spec = f'{i[1]};{i[3]}', f'{m[1]};{m[3]}', f'{m[1]};{k}'
+            if not (fn_impl == fn_model == fn_spec):
+                run.disagree(Disagreement(dict(base, node=k), fn_impl, fn_model, spec=fn_spec, what='rooted-fn-path',
+                                          site='evaluate__path in a rooted sub-tree context (root() + steps from the context root)'))
+            # node.path: context-independent by construction; in this context it is finding F14l
+            ab_impl, ab_model, ab_spec = f'{i[0]};{i[2]}', f'{m[0]};{m[2]}', f'{m[0]};{k}'
+            if ab_impl != ab_model:
+                # the model of the rooted context (incl. the model of F14l) no longer mirrors the code
+                run.disagree(Disagreement(dict(base, node=k), ab_impl, ab_model, spec=ab_model, what='rooted-context-model',
+                                          site='XPathContext(root=<element with an element parent>) / select__child_path / node.path'))
+            elif ab_impl != ab_spec and not tagged:
+                tagged = True
+                run.disagree(Disagreement(dict(base, node=k), ab_impl, ab_model, spec=ab_spec, what='rooted-context-path',
+                                          tags=['F14l'] if trig else [],
+                                          site='ElementNode.path (whole-tree path) evaluated in a rooted sub-tree context'))
+            if count:
+                st.count('rooted:nodes')
+                if fn_impl == fn_spec:
+                    st.count('rooted:fn-path-selects-the-node')
+                if ab_impl != ab_spec:
+                    st.count('F14l:node.path-in-rooted-subtree-context')
+                if m[2] not in ('-', str(k)):
+                    st.count('rooted:node.path-selects-a-wrong-node')
+        if count:
+            st.count('rooted:contexts')
+            st.count(f"rooted:lib={case['lib']}/whole-tree={'document' if line.startswith('root=doc') else 'element'}")
+            st.count(f'rooted:context-depth={len(pre)}')
+
+
 def compare(run: Run, cases: list, count=True) -> None:
     prepared = []
     for case in cases:
@@ -963,6 +1437,9 @@ def compare(run: Run, cases: list, count=True) -> None:
                 st.count('default-namespace-node')
             if case['doc'] and (case['doc']['pre'] or case['doc']['post']):
                 st.count('document-level-comment-or-pi')
+    lazy_compare(run, prepared, count)
+    lazy_history_compare(run, prepared, count)
+    rooted_compare(run, prepared, count)
 
 
 def orphan_checks(run: Run) -> None:
@@ -1343,7 +1820,9 @@ def body(run: Run) -> int:
         'element / PI names are compared as (namespace, local) pairs = Clark strings for NCNames']
     run.stats.extra['translated'] = translate(run)
     run.trusted_base.append('translator harness/c14.py::translate (ast of the anchored functions -> string literal table)')
-    run.prove(['EPV.Props.C14', 'EPV.Props.C14Tables'], ['EPV.Spec.NodePathSpec'])
+    run.prove(['EPV.Props.C14', 'EPV.Props.C14Tables', 'EPV.Props.C14Lazy', 'EPV.Props.C14LazyHist',
+               'EPV.Props.C14Rooted'],
+              ['EPV.Spec.NodePathSpec', 'EPV.Model.LazyPathIO', 'EPV.Model.LazyHistIO', 'EPV.Model.RootedPathIO'])
     replay = getattr(run, 'replay', None)
     try:
         if replay:
